@@ -8,7 +8,7 @@
     [never_fails] = the solver reports success (an integration failure stops the protocol early:
     modelled, exercised by the correspondence, not part of the property). *)
 From Coq Require Import QArith List Bool NArith.
-From Sim Require Import Integrator Simulator Protocol SimExec GenSimFacts SimProofs ProtocolProofs SteadyProofs.
+From Sim Require Import Integrator Simulator Protocol SimExec GenSimFacts SimProofs ProtocolProofs SteadyProofs Variants SwitchProofs.
 Import ListNotations.
 Open Scope Q_scope.
 
@@ -238,3 +238,96 @@ Example C14_same_grid_nonvacuous :
     = [0; 1; 2; 5 # 2; 3; 17 # 4; 5; 11 # 2; 6; 29 # 4; 8].
 Proof. vm_compute. reflexivity. Qed.
 Print Assumptions C14_same_grid_nonvacuous.
+
+(** ** dense sampling right after a switch (seeded change C14-4)
+
+    ONE step of the time-course form: after [update_parameters u], a time course whose first requested point lies ANY
+    d > 0 after the time reached -- the start of the step: the protocol's own start or an inner boundary (by
+    [C14_protocol_time_course_is_manual] every step of the loop is such a call, its window holding exactly the union's
+    points in (T_(i-1), T_i]) -- is accepted, appends exactly the requested points, THE FIRST ONE INCLUDED, and every new
+    row is the solution under the step's values [pupd p u] from the state held at the boundary after [t - boundary]
+    ([appended]: last segment = [(t + shift, flow (pupd p u) (h + shift) y0 (t - h))] for t in rest, with
+    h + shift == reached): the step's values govern from the boundary itself, however close the first sample lies and
+    at whatever absolute time; nothing in the model is tolerant *)
+Theorem C14_tc_step_governs :
+  forall (Y P U : Type) (flow : P -> Q -> Y -> Q -> Y) (solve_ok : P -> Q -> Y -> Q -> bool) (pupd : P -> U -> P)
+         (s : sim Y P) (u : U) (d : Q) (later : list Q),
+    (forall p t y t1, solve_ok p t y t1 = true) -> Inv2 Y P s -> has_errors Y P s = false ->
+    0 < d -> incr ((reached Y P s + d) :: later) ->
+    let s1 := update_parameters Y P U pupd s u in
+    let pts := (reached Y P s + d) :: later in
+    exists s2 h rest,
+      simulate_time_course Y P flow solve_ok gen_sim_facts s1 pts = (s2, Done) /\ Inv2 Y P s2 /\ has_errors Y P s2 = false
+      /\ s_mp s1 = pupd (s_mp s) u
+      /\ h == i_t0 (s_int s) /\ i_t0 (s_int s) + shiftv Y P s == reached Y P s
+      /\ i_y0 (s_int s) = start_state Y P s
+      /\ appended Y P flow s1 s2 h rest
+      /\ Qeql (map (add_shift (s_shift s)) rest) pts
+      /\ reached Y P s2 == lastq pts 0.
+Proof. exact (fun Y P U flow solve_ok pupd => tc_step_governs Y P U flow solve_ok pupd gen_sim_facts (good_of_pinned _ C14_facts_pinned)). Qed.
+Print Assumptions C14_tc_step_governs.
+
+(** non-vacuity: the simulator continued at t = 2048 is a reachable state ([Inv2]), a sample 2^-7 after it meets the
+    hypotheses with k := 2; the sample is in the index and its row is the solution after 2^-7 under k = 2 from the
+    state at t = 2048 *)
+Example C14_tc_step_nonvacuous :
+  Inv2 (list Q) (list Q) late_continued /\ has_errors (list Q) (list Q) late_continued = false
+  /\ reached (list Q) (list Q) late_continued == 2048 /\ 0 < 1 # 128
+  /\ incr ((reached (list Q) (list Q) late_continued + (1 # 128)) :: [2112])
+  /\ xindex switch_after = [0; 512; 1024; 1536; 2048; 262145 # 128; 2112]
+  /\ xstate_at late_continued 2048 = Some [1050625; 1025]
+  /\ xstate_at switch_after (262145 # 128) = Some (xflow [2; 1 # 2; 0; 0] 2048 [1050625; 1025] (1 # 128)).
+Proof. exact switch_nonvacuous. Qed.
+Print Assumptions C14_tc_step_nonvacuous.
+
+(** the modelled time-course functions with the ONE test "the grid already starts at the current time" of
+    Scipy.integrate_time_course abstracted ([same], Variants.v) ARE the shipped model when the test is the exact
+    comparison [time_points[0] != self.t0] (shape pinned by [f_shapes_ok]) *)
+Theorem C14_exact_start_is_shipped :
+  forall (Y P U : Type) (flow : P -> Q -> Y -> Q -> Y) (solve_ok : P -> Q -> Y -> Q -> bool) (pupd : P -> U -> P)
+         (fx : sim_facts),
+    (forall p (ig : integ Y) tp,
+       integrate_time_course_by Y P flow solve_ok Qeq_bool p ig tp = integrate_time_course Y P flow solve_ok p ig tp)
+    /\ (forall (s : sim Y P) pts,
+       simulate_time_course_by Y P flow solve_ok fx Qeq_bool s pts = simulate_time_course Y P flow solve_ok fx s pts)
+    /\ (forall (s : sim Y P) rows pts rel,
+       simulate_protocol_time_course_by Y P U flow solve_ok pupd fx Qeq_bool s rows pts rel
+       = simulate_protocol_time_course Y P U flow solve_ok pupd fx s rows pts rel).
+Proof. exact (fun Y P U flow solve_ok pupd fx => conj (itc_by_exact Y P flow solve_ok) (conj (stc_by_exact Y P flow solve_ok fx) (sptc_by_exact Y P U flow solve_ok pupd fx))). Qed.
+Print Assumptions C14_exact_start_is_shipped.
+
+(** what ANY tolerant test does with a first point it takes for the current time: the integration starts AT that
+    point with the state that belongs to the integrator's time -- the first row stamps the boundary's state at [t]
+    (and is then dropped by the Simulator as the duplicated first row of a continued segment), every later row has
+    run for [t' - t] instead of [t' - t0] *)
+Theorem C14_tolerant_start_starts_late :
+  forall (Y P : Type) (same : Q -> Q -> bool) (flow : P -> Q -> Y -> Q -> Y) (solve_ok : P -> Q -> Y -> Q -> bool)
+         (p : P) (ig : integ Y) (t : Q) (tp : list Q),
+    same t (i_t0 ig) = true -> tp <> [] -> incr (t :: tp) -> (forall p t y t1, solve_ok p t y t1 = true) ->
+    snd (integrate_time_course_by Y P flow solve_ok same p ig (t :: tp))
+    = IOk (map (fun t' => (t', flow p t (i_y0 ig) (t' - t))) (t :: tp)).
+Proof. exact (fun Y P same flow solve_ok => itc_by_same_rows Y P same flow solve_ok). Qed.
+Print Assumptions C14_tolerant_start_starts_late.
+
+(** regression witness for seeded change C14-4 ([same := np_isclose]: |a - b| <= 1e-8 + 1e-5 |b|) on the executable
+    instance x' = k*y, y' = 1/2:  a protocol with steps of 1024, 1024, 512 on a fresh simulator and the grid
+    [512; 1024 + 2^-8; 1024.5; 1536; 2048 + 2^-9; 2304]:  the shipped shape returns start + every requested point +
+    every boundary, the tolerant one loses the two samples right after the switches, and the state at the boundary
+    2048 is no longer the one of "apply the values, simulate for the duration"; the same for a simulator continued at
+    t = 2048 and a RELATIVE grid starting at 2^-7; at small absolute time (boundary at 1, sample 2^-8 later) the two
+    shapes agree -- only late / long protocols show the difference *)
+Theorem C14_close_start_refuted :
+  xindex (xptc_by Qeq_bool late_fresh late_steps late_grid false)
+    = [0; 512; 1024; 262145 # 256; 2049 # 2; 1536; 2048; 1048577 # 512; 2304; 2560]
+  /\ xindex (xptc_by np_isclose late_fresh late_steps late_grid false)
+    = [0; 512; 1024; 2049 # 2; 1536; 2048; 2304; 2560]
+  /\ xstate_at (xptc_by Qeq_bool late_fresh late_steps late_grid false) 2048 = Some [920065; 1025]
+  /\ xstate_at (xptc_by np_isclose late_fresh late_steps late_grid false) 2048 <> Some [920065; 1025]
+  /\ xindex (xptc_by Qeq_bool late_continued cont_steps cont_grid true)
+    = [0; 512; 1024; 1536; 2048; 262145 # 128; 2112; 2176; 278529 # 128; 2432]
+  /\ xindex (xptc_by np_isclose late_continued cont_steps cont_grid true)
+    = [0; 512; 1024; 1536; 2048; 2112; 2176; 2432]
+  /\ xindex (xptc_by np_isclose late_fresh early_steps early_grid false) = [0; 1 # 2; 1; 257 # 256; 2; 3]
+  /\ xptc_by np_isclose late_fresh early_steps early_grid false = xptc_by Qeq_bool late_fresh early_steps early_grid false.
+Proof. exact close_start_refuted. Qed.
+Print Assumptions C14_close_start_refuted.
